@@ -2,7 +2,7 @@
    the [..._refuted] theorems.  The codecs are parameters of the model; here they are instantiated
    with a toy codec ("stored": one header byte 7, then the bytes) that satisfies [codec_ok] and
    decodes streams incrementally (a truncated input yields the prefix decoded so far). *)
-From Verif Require Import Common.Base C16.Model C16.Proofs.
+From Verif Require Import Common.Base C16.Model C16.Proofs C16.Harness C16.Check.
 From Coq Require Import String.
 
 Definition toy_enc (_ : codec) (_ : Z) (b : bytes) : bytes := 7%N :: b.
@@ -193,4 +193,35 @@ Example ex_headers_chain :
   e2e toy_enc toy_dec toy_cdec (gz 0) (srv 100 None [])
       {| q_ce := []; q_body := Some [7;5]%N; q_raw := [s_gzip]; q_stream := false; q_rerr := false; q_cerr := false |}
     = Some (Handled [] (-1) ([7;5]%N, E_EOF)).
+Proof. vm_compute. repeat split. Qed.
+
+(* histories: non-vacuity of roundtrip_history (two different bodies, a nil body) and of client_refused_iff *)
+Example ex_history :
+  run_history toy_enc toy_dec toy_cdec (gz 3) (srv 10 None [])
+    [rq [] [1;2;3]%N; rq [] []; {| q_ce := []; q_body := None; q_raw := []; q_stream := false; q_rerr := false; q_cerr := false |}]
+  = [Some (Handled [] (-1) ([1;2;3]%N, E_EOF)); Some (Handled [] (-1) ([], E_EOF)); Some (Handled [] (-1) ([], E_EOF))].
+Proof. vm_compute. reflexivity. Qed.
+
+Example ex_refused :
+  client toy_enc (gz 10) (rq [] []) = CRefused /\
+  client toy_enc {| c_type := "br"%string; c_level := 0; c_hdr := None |} (rq [] []) = CRefused /\
+  client_validate {| c_type := "br"%string; c_level := 0; c_hdr := None |} = true /\
+  writer_codec "br"%string = None.
+Proof. vm_compute. repeat split. Qed.
+
+(* the clause checker on concrete observations: a faithful gzip round trip passes; the same observation
+   with the handler having read one byte too many violates clause 4 (and 1) *)
+Definition obs_ok : eobs :=
+  {| x_type := s_gzip; x_level := 0; x_hdr := None; x_ce := []; x_raw := []; x_body := Some [1;2;3]%N;
+     x_rerr := false; x_cerr := false; x_max := 3; x_algs := None; x_custom := []; x_dect := [];
+     x_client := 0; x_wce := [s_gzip]; x_wbody := [9;9]%N; x_wcl := 2;
+     x_kind := 0; x_status := 200; x_hce := []; x_cl := (-1); x_data := [1;2;3]%N; x_err := 0 |}.
+Definition obs_bad : eobs :=
+  {| x_type := s_gzip; x_level := 0; x_hdr := None; x_ce := []; x_raw := []; x_body := Some [1;2;3]%N;
+     x_rerr := false; x_cerr := false; x_max := 3; x_algs := None; x_custom := []; x_dect := [];
+     x_client := 0; x_wce := [s_gzip]; x_wbody := [9;9]%N; x_wcl := 2;
+     x_kind := 0; x_status := 200; x_hce := []; x_cl := (-1); x_data := [1;2;3;4]%N; x_err := 0 |}.
+Example ex_clause_checker :
+  core_ok obs_ok = true /\ core_ok obs_bad = false /\ c_limit obs_bad = false /\ c_roundtrip obs_bad = false /\
+  compresses_b obs_ok = true.
 Proof. vm_compute. repeat split. Qed.
